@@ -187,7 +187,12 @@ def _frac(pair):
 
 def float_eps(exact):
     """bound on |x - exact| for x = fl(fl(float(used) / total) * 100): two correctly rounded
-    operations on exact operands (magnitudes < 2^53), each of relative error <= 2^-53"""
+    operations on exact operands (magnitudes < 2^53), each of relative error <= 2^-53. When the
+    quotient and the product are representable doubles both operations are exact: ε = 0, and then
+    even an exact tie (81.25) is compared strictly (round-half-even on the exact value)."""
+    r = exact / 100
+    if Fraction(r.numerator / r.denominator) == r and Fraction(exact.numerator / exact.denominator) == exact:
+        return Fraction(0)
     return abs(exact) * Fraction(1, 2 ** 51)
 
 
@@ -221,7 +226,8 @@ def _percent_note(p, want, exact, res, tag, what):
     rounded decimal; on a boundary (counted) it may be one unit in the last place away"""
     if p == want.numerator / want.denominator:
         return None
-    if exact is not None and _near_boundary(exact) and abs(Fraction(p) - want) <= Fraction(1, 10) + Fraction(1, 10 ** 9):
+    if exact is not None and float_eps(exact) > 0 and _near_boundary(exact) \
+            and abs(Fraction(p) - want) <= Fraction(1, 10) + Fraction(1, 10 ** 9):
         res.count(tag + ":percent_on_rounding_boundary_differs")
         return None
     return "percent %r is not %s (%s; exact value %s)" % (p, float(want), what, None if exact is None else float(exact))
@@ -241,7 +247,8 @@ def cmp_record(impl, ref, exact, is_spec, res, tag):
             if abs(p * 10 - round(p * 10)) > 1e-6:
                 return "percent %r is not rounded to one decimal" % p
             if exact is not None and _near_boundary(exact):
-                res.count(tag + ":percent_boundary_cases" + ("" if is_spec else "_model"))
+                res.count(tag + (":percent_boundary_cases" if float_eps(exact) > 0 else ":percent_exact_ties_strict")
+                          + ("" if is_spec else "_model"))
             if is_spec:
                 note = _percent_note(p, round1(_frac(fr[k])), exact, res, tag, "(…)/total*100 rounded to one decimal")
             else:
